@@ -1,7 +1,8 @@
-From Grevm Require Import Base.Util Cache.Status Cache.Revm Cache.Par.
+From Grevm Require Import Base.Util Cache.Status Cache.Revm Cache.Par Cache.Conc.
 Require Extraction. Require ExtrOcamlBasic.
 Extraction Language OCaml.
 Extraction "extract/cache.ml"
   mkDb mkInfo mkEAcc mkTrans load_pair
   r_init r_step r_run r_basic_ans r_storage_ans r_code_ans r_accounts r_contracts r_ts
-  p_init p_step p_run p_basic_ans p_storage_ans p_code_ans p_accounts p_storage p_contracts p_ts pslot.
+  p_init p_step p_run p_basic_ans p_storage_ans p_code_ans p_accounts p_storage p_contracts p_ts pslot
+  original repaired init step run answer committer_idle c_acct c_slots c_ghost c_pc c_pending c_readers.
